@@ -90,6 +90,10 @@ def calcRes (s : DState) (r : Except Err (Prism Float × String)) : DState × St
 
 def step (s : DState) (toks : List String) : DState × String :=
   match toks with
+  -- ---------------- C02 analytic references: wt eta | r...
+  | "wt" :: eta :: rs =>
+      let η := hexToFloat eta
+      (s, s!"{floatToHex (wtContact η)} {floatToHex (wtS0 η)} c {fl ((hexs rs).map (wtC η)).toList}")
   -- ---------------- C17 unit conversions: uc <method> dcM ecJ kB NA | x...
   | "uc" :: meth :: dcM :: ecJ :: kB :: NA :: xs =>
       let dcM := hexToFloat dcM; let ecJ := hexToFloat ecJ; let kB := hexToFloat kB; let NA := hexToFloat NA
